@@ -8,31 +8,39 @@
 //   - Engine.WriteSnapshot holds the engine lock exclusively around Cache.Snapshot, writers hold it shared
 //     around WriteMulti                                      -> engMu (writers R, Snapshot W)
 //   - Engine.snapshotDeleteMu keeps DeleteRange out of the window Snapshot..ClearSnapshot
-//                                                            -> delMu (deletes R, snapshot window W)
+//     -> delMu (deletes R, snapshot window W)
 //   - the Store's epoch guard: a delete waits for the writes that started before it, and a write that
 //     started later waits for the delete iff one of its points lies in the delete's key set and time range
-//                                                            -> guardMu + per-delete mutex
+//     -> guardMu + per-delete mutex
 //
 // Oracles
-//   - every Values result is strictly ascending in time and consists of values written to that key;
+//   - every Values result is strictly ascending in time and consists of values written to that key, never of
+//     values of a WriteMulti that was rejected for the size limit;
 //   - per key, the history of writes / reads / deletes / snapshot swaps / clears is linearizable against the
 //     sequential model {snapshot map, hot map; read = union, hot wins on equal time, sorted} (porcupine,
-//     20 s timeout, Unknown = inconclusive);
-//   - a WriteMulti rejected for the size limit stored nothing (its values are never read; the model treats it as
-//     a no-op); it may be rejected only if the largest size the cache can have had during its interval plus its
-//     own size exceeds the limit, and it must be rejected if even the smallest possible size plus its own size
-//     exceeds the limit;
-//   - Size(): two copies of the model bound the accounted size at every instant: the floor copy applies
-//     writes when they return and deletes/clears when they are invoked, the ceiling copy the other way round.
-//     Per key the size is between "deduplicated values + key length" and "all values written since the entry
-//     was created (overwritten ones included) minus everything in deleted ranges + key length" - the two
-//     readings of "accounted size" the code itself alternates between. A Size() result must lie within
-//     [min floor, max ceiling] over its interval; at quiescence floor and ceiling copies agree;
+//     20 s timeout, Unknown = inconclusive_porcupine, never reported). A history that fails is re-checked
+//     against two weaker models to name the anomaly: reads that may miss a part of the hot values
+//     (C09:read-truncated) and writes overlapping a delete of their key that may have stored nothing
+//     (C09:write-lost-in-delete-race); anything else is C09:not-linearizable;
+//   - a WriteMulti may be rejected for the limit only if the largest size the cache can have had during its
+//     interval plus its own size exceeds the limit, and must be rejected if even the smallest possible size plus
+//     its own size exceeds it (C09:spurious-limit-reject / C09:limit-not-enforced);
+//   - size: two copies of the model bound the accounted size at every instant: the floor copy applies writes
+//     when they return and deletes/clears when they are invoked, the ceiling copy the other way round. Per key
+//     the size lies between "deduplicated values + key length" and "every value the entry holds, overwritten ones
+//     included, + key length". At quiescence Size() must lie in [floor, ceiling] (C09:size-mismatch); an excess
+//     that is explained by bytes of overwritten values a read deduplicated away before a delete is reported as
+//     C09:size-drift-after-dedup, one explained by a partial delete racing with a write to another time of the
+//     same key as C09:size-race-delete-vs-write (both are upper bounds kept by the ceiling copy). A Size() call
+//     concurrent with other operations is only observed (obs:size-out-of-bounds), the property states the size
+//     at rest;
 //   - a key of a batch whose type conflicts with the hot entry (or whose values have mixed types) is rejected
-//     alone with tsdb.ErrFieldTypeConflict, the other keys of the batch are stored (configuration batch);
+//     alone with tsdb.ErrFieldTypeConflict, the other keys of the batch are stored (configuration batches);
 //   - Snapshot returns ErrSnapshotInProgress exactly while a snapshot window is open, retries a retained
 //     (ClearSnapshot(false)) non-empty snapshot without swapping, and the snapshot it returns holds exactly the
-//     model's snapshot keys/timestamps with a size inside the model's bounds.
+//     model's snapshot keys/timestamps with a size inside the model's bounds (C09:snapshot-content,
+//     C09:snapshot-size);
+//   - at quiescence Values of every key and Keys() equal the model (C09:final-content, C09:final-keys).
 package cache
 
 import (
@@ -269,7 +277,7 @@ func dryRun(ops []op, limit uint64) (int, []uint64) {
 		case "del":
 			min, max := delRange(p.Min, p.Max)
 			for _, k := range p.Keys {
-				m.del(k, min, max)
+				m.del(k, min, max, true)
 			}
 		case "snap":
 			if m.snapEmpty() {
@@ -283,26 +291,37 @@ func dryRun(ops []op, limit uint64) (int, []uint64) {
 	return rejected, needs
 }
 
-// ---- sequential model with the two size readings
+// ---- sequential model
+//
+// A key's lists hold the values physically in the entry in arrival order, overwritten ones included (the code
+// keeps them until the entry is deduplicated). Size readings of a list: lo = deduplicated values, phys = all
+// values; + key length when the list is not empty. A delete deduplicates the whole entry and subtracts exactly
+// what it removes, so afterwards lo == phys. A read (Values) or Cache.Deduplicate also deduplicates the entry but
+// does not touch the accounting: the bytes of the overwritten values it drops stay in Size() when a later delete
+// removes the entry ("leak", tracked as an upper bound and reported as its own class).
 
 type val struct {
-	ts    int64
-	id    uint64
-	sz    int
-	ty    int
-	owner int // write operation (for withdrawing tentative values of the ceiling copy)
+	ts      int64
+	id      uint64
+	sz      int
+	ty      int
+	owner   int  // write operation (for withdrawing tentative values of the ceiling copy)
+	counted bool // already counted as possibly leaked
 }
 
 type kstate struct {
-	hot, snap []val // all values in arrival order, overwritten ones included
+	hot, snap []val
 }
 
 type cmodel struct {
-	k [nKeys]kstate
+	k                 [nKeys]kstate
+	leakHot, leakSnap int // upper bound of the bytes reads may have made unaccountable (ceiling copy only)
+	raceHot, raceSnap int // upper bound of the bytes counted twice by a partial delete racing with a write
 }
 
 func newModel() *cmodel { return &cmodel{} }
 
+// dedup returns the newest value per time, ascending (later lists and later positions win).
 func dedup(lists ...[]val) []val {
 	last := map[int64]val{}
 	for _, l := range lists {
@@ -318,50 +337,52 @@ func dedup(lists ...[]val) []val {
 	return out
 }
 
-func sizeOf(key int, l []val, hi bool, excl int) int {
-	n := 0
-	any := false
-	if hi {
-		for _, v := range l {
-			if v.owner != excl || excl < 0 {
-				n += v.sz
-				any = true
-			}
-		}
-	} else {
-		var keep []val
-		for _, v := range l {
-			if v.owner != excl || excl < 0 {
-				keep = append(keep, v)
-			}
-		}
-		for _, v := range dedup(keep) {
-			n += v.sz
-			any = true
+// physDedup is what Values.Deduplicate does to an entry: nothing if already strictly ascending.
+func physDedup(l []val) []val {
+	for i := 1; i < len(l); i++ {
+		if l[i-1].ts >= l[i].ts {
+			return dedup(l)
 		}
 	}
-	if any {
-		n += len(keyNames[key])
+	return l
+}
+
+func sizeOf(key int, l []val, phys bool, excl int) int {
+	var keep []val
+	for _, v := range l {
+		if excl < 0 || v.owner != excl {
+			keep = append(keep, v)
+		}
 	}
-	return n
-}
-
-func (m *cmodel) keySize(k int, hi bool, excl int) int {
-	return sizeOf(k, m.k[k].hot, hi, excl) + sizeOf(k, m.k[k].snap, hi, -1)
-}
-
-func (m *cmodel) total(hi bool, excl int) int {
-	n := 0
-	for k := range m.k {
-		n += m.keySize(k, hi, excl)
+	if len(keep) == 0 {
+		return 0
+	}
+	if !phys {
+		keep = dedup(keep)
+	}
+	n := len(keyNames[key])
+	for _, v := range keep {
+		n += v.sz
 	}
 	return n
 }
 
-func (m *cmodel) snapTotal(hi bool) int {
+func (m *cmodel) keySize(k int, phys bool, excl int) int {
+	return sizeOf(k, m.k[k].hot, phys, excl) + sizeOf(k, m.k[k].snap, phys, -1)
+}
+
+func (m *cmodel) total(phys bool, excl int) int {
 	n := 0
 	for k := range m.k {
-		n += sizeOf(k, m.k[k].snap, hi, -1)
+		n += m.keySize(k, phys, excl)
+	}
+	return n
+}
+
+func (m *cmodel) snapTotal(phys bool) int {
+	n := 0
+	for k := range m.k {
+		n += sizeOf(k, m.k[k].snap, phys, -1)
 	}
 	return n
 }
@@ -369,6 +390,15 @@ func (m *cmodel) snapTotal(hi bool) int {
 func (m *cmodel) snapEmpty() bool {
 	for k := range m.k {
 		if len(m.k[k].snap) > 0 {
+			return false
+		}
+	}
+	return true
+}
+
+func (m *cmodel) hotEmpty() bool {
+	for k := range m.k {
+		if len(m.k[k].hot) > 0 {
 			return false
 		}
 	}
@@ -403,21 +433,62 @@ func exclude(l []val, min, max int64) []val {
 	return out
 }
 
-func (m *cmodel) del(k int, min, max int64) {
+// del: dedup says whether the delete's own deduplication of the entry is applied (the ceiling copy does not:
+// a write in flight may add its values after the delete has looked at the entry).
+func (m *cmodel) del(k int, min, max int64, dedupEntry bool) {
+	if min == math.MinInt64 && max == math.MaxInt64 {
+		m.k[k].hot, m.k[k].snap = nil, nil
+		return
+	}
+	if dedupEntry {
+		m.k[k].hot, m.k[k].snap = physDedup(m.k[k].hot), physDedup(m.k[k].snap)
+	}
 	m.k[k].hot = exclude(m.k[k].hot, min, max)
 	m.k[k].snap = exclude(m.k[k].snap, min, max)
+}
+
+// shadowed counts (once) the bytes of the values of l that a deduplication would drop.
+func shadowed(l []val) int {
+	n := 0
+	win := map[int64]int{}
+	for i, v := range l {
+		win[v.ts] = i
+	}
+	for i := range l {
+		if win[l[i].ts] != i && !l[i].counted {
+			l[i].counted = true
+			n += l[i].sz
+		}
+	}
+	return n
+}
+
+// noteRead: a Values(k) call may deduplicate the hot and the snapshot entry of k now.
+func (m *cmodel) noteRead(k int) {
+	m.leakHot += shadowed(m.k[k].hot)
+	m.leakSnap += shadowed(m.k[k].snap)
+}
+
+// noteSnapshotDedup: Cache.Deduplicate on the snapshot.
+func (m *cmodel) noteSnapshotDedup() {
+	for k := range m.k {
+		m.leakSnap += shadowed(m.k[k].snap)
+	}
 }
 
 func (m *cmodel) swap() {
 	for k := range m.k {
 		m.k[k].snap, m.k[k].hot = m.k[k].hot, nil
 	}
+	m.leakSnap, m.leakHot = m.leakHot, 0
+	m.raceSnap, m.raceHot = m.raceHot, 0
 }
 
 func (m *cmodel) clear() {
 	for k := range m.k {
 		m.k[k].snap = nil
 	}
+	m.leakSnap, m.raceSnap = 0, 0
 }
 
 func (m *cmodel) withdraw(owner, key int) {
@@ -491,7 +562,40 @@ func filterTV(l []tv, min, max int64) []tv {
 	return out
 }
 
-var linModel = porcupine.Model{
+var linModel = mkLinModel(false)
+
+// truncModel accepts, in addition, a read that saw the snapshot values and only a part of the hot values: the
+// signature of Cache.Values sizing its buffer before it copies (the first n values of the entry in whatever
+// order they are stored at that moment). Used to tell that anomaly from any other non-linearizable history.
+var truncModel = mkLinModel(true)
+
+func mkLinModel(truncated bool) porcupine.Model {
+	m := linModelProto
+	m.Step = func(state, input, output interface{}) (bool, interface{}) {
+		st := state.(linState)
+		in := input.(linIn)
+		if in.kind == 'r' && truncated {
+			got := encTV(output.([]tv))
+			snap, hot := decTV(st.snap), decTV(st.hot)
+			for mask := 0; mask < 1<<len(hot); mask++ {
+				var part []tv
+				for i, v := range hot {
+					if mask&(1<<i) == 0 { // mask 0 = all of them
+						part = append(part, v)
+					}
+				}
+				if encTV(mergeTV(snap, part)) == got {
+					return true, st
+				}
+			}
+			return false, st
+		}
+		return linModelProto.Step(state, input, output)
+	}
+	return m
+}
+
+var linModelProto = porcupine.Model{
 	Init: func() interface{} { return linState{} },
 	Step: func(state, input, output interface{}) (bool, interface{}) {
 		st := state.(linState)
@@ -537,8 +641,8 @@ type guard struct {
 }
 
 type watch struct {
-	owner          int
-	minFloor, maxC int
+	owner                             int
+	minFloor, maxC, maxSlack, maxRace int
 }
 
 type world struct {
@@ -555,43 +659,77 @@ type world struct {
 	guards                         []*guard
 
 	hist     [nKeys][]porcupine.Operation
-	skipLin  [nKeys]bool
+	skipLin  [nKeys]bool // the model may be out of step with the cache on this key (unattributable type conflict)
 	watches  []*watch
 	mutating [nKeys]int // mutators (writes, deletes) in flight per key
 	mutEv    [nKeys]int // bumped when a mutator on the key starts
+	partDel  [nKeys]int // partial deletes in flight per key
+	writing  [nKeys]int // bytes of the writes in flight per key
 	removing [nKeys]int // deletes / swaps in flight per key
 	remEv    [nKeys]int
 	written  [nKeys]bool
 	idKey    map[uint64]int
 	idTS     map[uint64]int64
 	idTy     map[uint64]int
-	rejected map[uint64]bool // values of writes rejected for the limit
-	inexact  bool            // an outcome could not be attributed (contended type conflict)
+	rejected map[uint64]bool         // values of writes rejected for the limit
+	raced    map[uint64]bool         // values whose write overlapped a delete of their key
+	wids     [nKeys]map[int][]uint64 // value ids of the writes in flight, per key and write
+	delIn    [nKeys]int              // deletes in flight per key
+	reading  [nKeys]int              // Values calls in flight per key
+	inexact  bool                    // an outcome could not be attributed (contended type conflict)
 	nextOp   int
 
 	accepted, limitRejected, nwrites int
 }
 
-func (w *world) bounds(excl int) (floor, ceil int) {
+// bounds: smallest and largest accounted size the cache can have right now (excl: a write's own tentative
+// values are left out), and the bytes that reads may have made unaccountable on top of the largest.
+func (w *world) bounds(excl int) (floor, ceil, slack, race int) {
 	for k := range w.A.k {
 		floor += min(w.A.keySize(k, false, -1), w.B.keySize(k, false, excl))
 		ceil += max(w.A.keySize(k, true, -1), w.B.keySize(k, true, excl))
 	}
-	return
+	return floor, ceil, w.B.leakHot + w.B.leakSnap, w.B.raceHot + w.B.raceSnap
 }
+
+// classify judges an observed size against bounds: "" ok, "drift" explained by the read-deduplication leak,
+// "below" / "above" otherwise.
+func classify(sz, floor, ceil, slack, race int) string {
+	switch {
+	case sz < floor:
+		return "below"
+	case sz <= ceil:
+		return ""
+	case sz <= ceil+slack:
+		return "drift"
+	case sz <= ceil+slack+race:
+		return "race"
+	}
+	return "above"
+}
+
+const raceClass = "C09:size-race-delete-vs-write"
+
+const raceNote = "DeleteRange reads the entry's size, filters it and reads the size again in separate critical sections; the values a concurrent WriteMulti (other timestamps, so not held back by the delete guard) appends in between are taken for part of the old content, so their bytes, already added by the write, are counted a second time"
+
+const driftClass = "C09:size-drift-after-dedup"
+
+const driftNote = "an entry that Values()/Deduplicate() has deduplicated no longer holds the overwritten values, but their bytes were never taken out of the size, and the delete that later removes or shrinks the entry subtracts only what the entry holds then"
 
 // bump is called after every change of a model copy: all interval watchers see the new bounds.
 func (w *world) bump() {
 	for _, x := range w.watches {
-		f, c := w.bounds(x.owner)
+		f, c, sl, rc := w.bounds(x.owner)
 		x.minFloor = min(x.minFloor, f)
 		x.maxC = max(x.maxC, c)
+		x.maxSlack = max(x.maxSlack, sl)
+		x.maxRace = max(x.maxRace, rc)
 	}
 }
 
 func (w *world) watch(owner int) *watch {
-	f, c := w.bounds(owner)
-	x := &watch{owner: owner, minFloor: f, maxC: c}
+	f, c, sl, rc := w.bounds(owner)
+	x := &watch{owner: owner, minFloor: f, maxC: c, maxSlack: sl, maxRace: rc}
 	w.watches = append(w.watches, x)
 	return x
 }
@@ -606,7 +744,57 @@ func (w *world) unwatch(x *watch) {
 }
 
 func (w *world) record(k, client int, in linIn, out interface{}, call, ret uint64) {
-	w.hist[k] = append(w.hist[k], porcupine.Operation{ClientId: client, Input: in, Call: int64(call), Output: out, Return: int64(ret)})
+	raced := false
+	for _, v := range in.vals {
+		raced = raced || w.raced[v.id]
+	}
+	w.hist[k] = append(w.hist[k], porcupine.Operation{ClientId: client, Input: in, Call: int64(call), Output: out, Return: int64(ret), Metadata: raced})
+}
+
+const lostClass = "C09:write-lost-in-delete-race"
+
+const lostNote = "DeleteRange filters the entry and, finding it empty, removes it from the store in a second step; a WriteMulti for other timestamps of that key (not held back by the delete guard) that appends to the entry in between is acknowledged, accounted in Size(), and gone"
+
+// judgeContent compares the times the cache holds for a key with the model's lists. A difference that consists
+// only of missing values whose write overlapped a delete of that key is the lost-write race.
+func (w *world) judgeContent(class, sig, where string, k int, got []tv, lists ...[]val) bool {
+	want := dedup(lists...)
+	var gt, wt []int64
+	have := map[int64]bool{}
+	for _, v := range got {
+		gt = append(gt, v.ts)
+		have[v.ts] = true
+	}
+	wantTS := map[int64]bool{}
+	for _, v := range want {
+		wt = append(wt, v.ts)
+		wantTS[v.ts] = true
+	}
+	if fmt.Sprint(gt) == fmt.Sprint(wt) {
+		return true
+	}
+	lost := true
+	for _, ts := range gt {
+		lost = lost && wantTS[ts]
+	}
+	for _, ts := range wt {
+		if have[ts] {
+			continue
+		}
+		any := false
+		for _, l := range lists {
+			for _, v := range l {
+				any = any || (v.ts == ts && w.raced[v.id])
+			}
+		}
+		lost = lost && any
+	}
+	if lost {
+		w.r.Violate(lostClass, sig, "%s holds times %v for key%d, the model holds %v; every missing value was written by a WriteMulti that returned without error while a DeleteRange of that key (other time range) was running: %s", where, gt, k, wt, lostNote)
+	} else {
+		w.r.Violate(class, sig, "%s holds times %v for key%d, the model holds %v", where, gt, k, wt)
+	}
+	return false
 }
 
 func isLimitErr(err error) bool {
@@ -661,12 +849,30 @@ func (w *world) doWrite(p op, ids [][]uint64) {
 	predicted := map[int]bool{}
 	ev0 := map[int]int{}
 	for _, k := range keys {
-		contended[k] = w.mutating[k] > 0
+		contended[k] = w.mutating[k] > 0 || w.skipLin[k]
 		predicted[k] = w.A.conflicts(k, per[k])
 		w.mutating[k]++
 		w.mutEv[k]++
 		ev0[k] = w.mutEv[k]
 		w.written[k] = true
+		kb := 0
+		for _, v := range per[k] {
+			kb += v.sz
+		}
+		w.writing[k] += kb
+		if w.wids[k] == nil {
+			w.wids[k] = map[int][]uint64{}
+		}
+		for _, v := range per[k] {
+			w.wids[k][me] = append(w.wids[k][me], v.id)
+			if w.delIn[k] > 0 {
+				w.raced[v.id] = true
+			}
+		}
+		if w.partDel[k] > 0 {
+			w.B.raceHot += kb
+			r.Probe("probe_write_during_partial_delete")
+		}
 	}
 	x := w.watch(me)
 	inv := simrt.Seq()
@@ -679,6 +885,10 @@ func (w *world) doWrite(p op, ids [][]uint64) {
 	w.nwrites++
 	for _, k := range keys {
 		w.mutating[k]--
+		for _, v := range per[k] {
+			w.writing[k] -= v.sz
+		}
+		delete(w.wids[k], me)
 		contended[k] = contended[k] || w.mutEv[k] != ev0[k]
 	}
 	stored := map[int]bool{}
@@ -741,10 +951,16 @@ func (w *world) doWrite(p op, ids [][]uint64) {
 	w.unwatch(x)
 	// limit rule
 	if w.limit > 0 {
-		if isLimitErr(err) && uint64(x.maxC+own) <= w.limit {
-			r.Violate("C09:spurious-limit-reject", "write", "WriteMulti of %d bytes was rejected (%v) although the cache can have held at most %d bytes at any moment of the call [%d,%d] (limit %d)", own, err, x.maxC, inv, ret, w.limit)
+		if isLimitErr(err) && uint64(x.maxC+own) <= w.limit && !w.inexact {
+			if uint64(x.maxC+x.maxSlack+own) <= w.limit && uint64(x.maxC+x.maxSlack+x.maxRace+own) > w.limit {
+				r.Violate(raceClass, "limit-reject", "WriteMulti of %d bytes was rejected (%v) although the keys and values held account for at most %d bytes at any moment of the call [%d,%d] (limit %d): %s", own, err, x.maxC, inv, ret, w.limit, raceNote)
+			} else if uint64(x.maxC+x.maxSlack+own) > w.limit {
+				r.Violate(driftClass, "limit-reject", "WriteMulti of %d bytes was rejected (%v) although the keys and values held account for at most %d bytes at any moment of the call [%d,%d] (limit %d); up to %d further bytes are explained by: %s", own, err, x.maxC, inv, ret, w.limit, x.maxSlack, driftNote)
+			} else {
+				r.Violate("C09:spurious-limit-reject", "write", "WriteMulti of %d bytes was rejected (%v) although the cache can have held at most %d bytes at any moment of the call [%d,%d] (limit %d)", own, err, x.maxC, inv, ret, w.limit)
+			}
 		}
-		if !isLimitErr(err) && uint64(x.minFloor+own) > w.limit {
+		if !isLimitErr(err) && uint64(x.minFloor+own) > w.limit && !w.inexact {
 			r.Violate("C09:limit-not-enforced", "write", "WriteMulti of %d bytes was accepted (err=%v) although the cache held at least %d bytes during the whole call [%d,%d] (limit %d)", own, err, x.minFloor, inv, ret, w.limit)
 		}
 	} else if isLimitErr(err) {
@@ -804,8 +1020,14 @@ func (w *world) readKey(c *tsm1.Cache, k int, who string) ([]tv, bool) {
 func (w *world) doRead(p op) {
 	k := p.Key % len(keyNames)
 	inv := simrt.Seq()
+	w.B.noteRead(k)
+	w.bump()
+	w.reading[k]++
 	out, _ := w.readKey(w.c, k, fmt.Sprintf("c%d", p.C))
+	w.reading[k]--
 	ret := simrt.Seq()
+	w.B.noteRead(k)
+	w.bump()
 	w.record(k, p.C, linIn{kind: 'r'}, out, inv, ret)
 	w.r.Logf("c%d read key%d [%d,%d] -> %s", p.C, k, inv, ret, encTV(out))
 }
@@ -840,18 +1062,39 @@ func (w *world) doDelete(p op) {
 		w.mutEv[k]++
 		w.removing[k]++
 		w.remEv[k]++
+		if min != math.MinInt64 || max != math.MaxInt64 {
+			w.partDel[k]++
+			w.B.raceHot += w.writing[k]
+		}
+		w.delIn[k]++
+		for _, o := range simrt.SortedKeys(w.wids[k]) {
+			for _, id := range w.wids[k][o] {
+				w.raced[id] = true
+				r.Probe("probe_write_overlaps_delete")
+			}
+		}
+		if w.reading[k] > 0 {
+			w.B.noteRead(k) // a Values call in flight may deduplicate the entry just before this delete
+		}
 	}
 	inv := simrt.Seq()
 	for _, k := range keys {
-		w.A.del(k, min, max)
+		w.A.del(k, min, max, true)
 	}
 	w.bump()
 	w.c.DeleteRange(bk, min, max)
 	ret := simrt.Seq()
 	for _, k := range keys {
-		w.B.del(k, min, max)
+		w.B.del(k, min, max, false)
 		w.mutating[k]--
 		w.removing[k]--
+		w.delIn[k]--
+		if min != math.MinInt64 || max != math.MaxInt64 {
+			w.partDel[k]--
+		}
+		if w.reading[k] > 0 {
+			w.B.noteRead(k)
+		}
 		w.record(k, p.C, linIn{kind: 'd', min: min, max: max}, nil, inv, ret)
 	}
 	w.bump()
@@ -890,7 +1133,10 @@ func (w *world) doSnapshot(p op) {
 	simrt.RWLock(&w.delMu, 0)
 	simrt.RWLock(&w.engMu, 0)
 	// no write and no delete is in flight now: both model copies hold the same timestamps
+	// a retained, non-empty snapshot is retried; an empty one is replaced by the hot store. The code tells the
+	// two apart by the snapshot's size, so bytes leaked into that size can make it retry an empty snapshot.
 	retry := w.retained && !w.A.snapEmpty()
+	unsure := w.retained && w.A.snapEmpty() && w.B.leakSnap > 0
 	for k := range w.removing {
 		w.removing[k]++
 		w.remEv[k]++
@@ -908,7 +1154,18 @@ func (w *world) doSnapshot(p op) {
 		return
 	}
 	w.windowOpen = true
+	if unsure && len(snap.Keys()) == 0 {
+		retry = true
+		if !w.A.hotEmpty() && !w.inexact {
+			r.Violate(driftClass, "empty-snapshot-retried", "Snapshot returned the retained snapshot for a retry although it holds no key any more (its size still reports %d bytes), instead of snapshotting the hot store (%d bytes): %s", snap.Size(), w.A.total(true, -1), driftNote)
+		}
+	}
 	if !retry {
+		for k := range w.reading {
+			if w.reading[k] > 0 {
+				w.B.noteRead(k)
+			}
+		}
 		w.A.swap()
 		w.B.swap()
 		w.bump()
@@ -924,6 +1181,8 @@ func (w *world) doSnapshot(p op) {
 	// the snapshot the compactor is going to write
 	w.checkSnapshot(snap, retry)
 	if snap.Size() > 0 {
+		w.B.noteSnapshotDedup()
+		w.bump()
 		snap.Deduplicate()
 	}
 	for i := 0; i < p.N%5; i++ {
@@ -964,11 +1223,16 @@ func (w *world) checkSnapshot(snap *tsm1.Cache, retry bool) {
 	if retry {
 		sig = "retry"
 	}
-	var have []string
+	for k := range w.A.k {
+		got, ok := w.readKey(snap, k, "snapshot")
+		if !ok || !w.judgeContent("C09:snapshot-content", sig, "the snapshot returned by Snapshot ("+sig+")", k, got, w.A.k[k].snap) {
+			return
+		}
+	}
+	var have, want []string
 	for _, k := range snap.Keys() {
 		have = append(have, string(k))
 	}
-	var want []string
 	for k := range w.A.k {
 		if len(w.A.k[k].snap) > 0 {
 			want = append(want, keyNames[k])
@@ -976,33 +1240,19 @@ func (w *world) checkSnapshot(snap *tsm1.Cache, retry bool) {
 	}
 	sort.Strings(want)
 	if strings.Join(have, "|") != strings.Join(want, "|") {
-		r.Violate("C09:snapshot-content", sig, "the snapshot returned by Snapshot (%s) holds keys %q, the model's snapshot holds %q", sig, have, want)
+		r.Violate("C09:snapshot-content", sig, "the snapshot returned by Snapshot (%s) lists keys %q, the model's snapshot holds %q", sig, have, want)
 		return
-	}
-	for k := range w.A.k {
-		if len(w.A.k[k].snap) == 0 {
-			continue
-		}
-		got, ok := w.readKey(snap, k, "snapshot")
-		if !ok {
-			return
-		}
-		var gt, wt []int64
-		for _, v := range got {
-			gt = append(gt, v.ts)
-		}
-		for _, v := range dedup(w.A.k[k].snap) {
-			wt = append(wt, v.ts)
-		}
-		if fmt.Sprint(gt) != fmt.Sprint(wt) {
-			r.Violate("C09:snapshot-content", sig, "the snapshot returned by Snapshot (%s) holds times %v for key%d, the model's snapshot holds %v", sig, gt, k, wt)
-			return
-		}
 	}
 	lo := min(w.A.snapTotal(false), w.B.snapTotal(false))
 	hi := max(w.A.snapTotal(true), w.B.snapTotal(true))
-	if sz := int(snap.Size()); sz < lo || sz > hi {
-		r.Violate("C09:snapshot-size", sig, "the snapshot returned by Snapshot (%s) reports size %d; its keys and values account for %d (deduplicated) to %d (every value written) bytes", sig, sz, lo, hi)
+	sz := int(snap.Size())
+	switch classify(sz, lo, hi, w.B.leakSnap, w.B.raceSnap) {
+	case "race":
+		r.Violate(raceClass, "snapshot-"+sig, "the snapshot returned by Snapshot (%s) reports size %d; its keys and values account for %d (deduplicated) to %d (every value held) bytes: %s", sig, sz, lo, hi, raceNote)
+	case "drift":
+		r.Violate(driftClass, "snapshot-"+sig, "the snapshot returned by Snapshot (%s) reports size %d; its keys and values account for %d (deduplicated) to %d (every value held) bytes: %s", sig, sz, lo, hi, driftNote)
+	case "below", "above":
+		r.Violate("C09:snapshot-size", sig, "the snapshot returned by Snapshot (%s) reports size %d; its keys and values account for %d (deduplicated) to %d (every value held) bytes (+%d possibly leaked by reads)", sig, sz, lo, hi, w.B.leakSnap)
 	}
 }
 
@@ -1017,8 +1267,12 @@ func (w *world) doSize(p op) {
 	if w.inexact {
 		return
 	}
-	if sz < x.minFloor || sz > x.maxC {
-		r.Violate("C09:size-out-of-bounds", "concurrent", "Size() = %d during [%d,%d]; the keys and values the cache can have held in that interval account for %d to %d bytes", sz, inv, ret, x.minFloor, x.maxC)
+	switch classify(sz, x.minFloor, x.maxC, x.maxSlack, x.maxRace) {
+	case "drift", "race":
+		r.Violate("obs:size-drift-after-dedup", "size", "Size() = %d during [%d,%d]; the keys and values the cache can have held in that interval account for %d to %d bytes: %s", sz, inv, ret, x.minFloor, x.maxC, driftNote)
+	case "below", "above":
+		// not demanded by the property (only the size at quiescence is): Size() adds two counters without a lock
+		r.Violate("obs:size-out-of-bounds", "concurrent", "Size() = %d during [%d,%d]; the keys and values the cache can have held in that interval account for %d to %d bytes (+%d possibly leaked by reads)", sz, inv, ret, x.minFloor, x.maxC, x.maxSlack)
 	}
 }
 
@@ -1072,37 +1326,8 @@ func (w *world) quiescent() {
 		if !ok {
 			return
 		}
-		want := dedup(w.A.k[k].snap, w.A.k[k].hot)
-		var gt, wt []int64
-		for _, v := range got {
-			gt = append(gt, v.ts)
-		}
-		for _, v := range want {
-			wt = append(wt, v.ts)
-		}
-		if fmt.Sprint(gt) != fmt.Sprint(wt) {
-			r.Violate("C09:final-content", "times", "at quiescence Values(key%d) holds times %v, the model holds %v", k, gt, wt)
+		if !w.judgeContent("C09:final-content", "times", "at quiescence Values", k, got, w.A.k[k].snap, w.A.k[k].hot) {
 			return
-		}
-		// the value at a time must be one the model still holds in the winning store
-		for _, v := range got {
-			cands := map[uint64]bool{}
-			for _, h := range w.A.k[k].hot {
-				if h.ts == v.ts {
-					cands[h.id] = true
-				}
-			}
-			if len(cands) == 0 {
-				for _, s := range w.A.k[k].snap {
-					if s.ts == v.ts {
-						cands[s.id] = true
-					}
-				}
-			}
-			if !cands[v.id] {
-				r.Violate("C09:final-content", "value", "at quiescence Values(key%d) holds #%d at time %d; the model's candidates there are %v (hot wins over snapshot)", k, v.id, v.ts, keysOf(cands))
-				return
-			}
 		}
 	}
 	// keys
@@ -1121,29 +1346,24 @@ func (w *world) quiescent() {
 		r.Violate("C09:final-keys", "keys", "at quiescence Keys() = %q, the model's hot keys are %q", have, want)
 	}
 	// size
-	lo, hi := w.bounds(-1)
-	if sz := int(w.c.Size()); sz < lo || sz > hi {
-		sig := "above"
-		if sz < lo {
-			sig = "below"
-		}
-		r.Violate("C09:size-mismatch", sig, "at quiescence Size() = %d; the keys and values held account for %d bytes (deduplicated) to %d bytes (counting every value written and not deleted); hot %d..%d snapshot %d..%d",
-			sz, lo, hi, lo-w.A.snapTotal(false), hi-w.A.snapTotal(true), w.A.snapTotal(false), w.A.snapTotal(true))
+	lo, hi, slack, race := w.bounds(-1)
+	sz := int(w.c.Size())
+	switch sig := classify(sz, lo, hi, slack, race); sig {
+	case "race":
+		r.Violate(raceClass, "quiescent", "at quiescence Size() = %d; the keys and values held account for %d bytes (deduplicated) to %d bytes (every value the entries hold); hot %d..%d snapshot %d..%d: %s",
+			sz, lo, hi, lo-w.A.snapTotal(false), hi-w.A.snapTotal(true), w.A.snapTotal(false), w.A.snapTotal(true), raceNote)
+	case "drift":
+		r.Violate(driftClass, "quiescent", "at quiescence Size() = %d; the keys and values held account for %d bytes (deduplicated) to %d bytes (every value the entries hold); hot %d..%d snapshot %d..%d: %s",
+			sz, lo, hi, lo-w.A.snapTotal(false), hi-w.A.snapTotal(true), w.A.snapTotal(false), w.A.snapTotal(true), driftNote)
+	case "below", "above":
+		r.Violate("C09:size-mismatch", sig, "at quiescence Size() = %d; the keys and values held account for %d bytes (deduplicated) to %d bytes (every value the entries hold, +%d possibly leaked by reads); hot %d..%d snapshot %d..%d",
+			sz, lo, hi, slack, lo-w.A.snapTotal(false), hi-w.A.snapTotal(true), w.A.snapTotal(false), w.A.snapTotal(true))
 	}
-}
-
-func keysOf(m map[uint64]bool) []uint64 {
-	var out []uint64
-	for k := range m {
-		out = append(out, k)
-	}
-	sort.Slice(out, func(i, j int) bool { return out[i] < out[j] })
-	return out
 }
 
 func exec(r *hx.Run, prog []json.RawMessage) {
 	w := &world{r: r, A: newModel(), B: newModel(), batch: r.CfgBool("batch"),
-		idKey: map[uint64]int{}, idTS: map[uint64]int64{}, idTy: map[uint64]int{}, rejected: map[uint64]bool{}}
+		idKey: map[uint64]int{}, idTS: map[uint64]int64{}, idTy: map[uint64]int{}, rejected: map[uint64]bool{}, raced: map[uint64]bool{}}
 	clients := map[int][]int{}
 	var order []int
 	var ops []op
@@ -1251,7 +1471,13 @@ func exec(r *hx.Run, prog []json.RawMessage) {
 				for _, o := range h {
 					fmt.Fprintf(&b, "\n    c%d [%d,%d] %s", o.ClientId, o.Call, o.Return, linModel.DescribeOperation(o.Input, o.Output))
 				}
-				r.Violate("C09:not-linearizable", sigOf(h), "the history of key%d (%q) has no linearization against {snapshot map, hot map, hot wins}:%s", k, keyNames[k], b.String())
+				if porcupine.CheckOperationsTimeout(truncModel, w.hist[k], 20*time.Second) == porcupine.Ok {
+					r.Violate("C09:read-truncated", sigOf(h), "the history of key%d (%q) has no linearization against {snapshot map, hot map, hot wins}; it has one if a read may return the snapshot values plus only a part of the hot values (Values sizes its buffer from entry.count() and copies later; when the entry has grown or was reordered in between, the copy is cut short):%s", k, keyNames[k], b.String())
+				} else if lostWriteExplains(w.hist[k]) {
+					r.Violate(lostClass, sigOf(h), "the history of key%d (%q) has no linearization against {snapshot map, hot map, hot wins}; it has one if some WriteMulti that overlapped a DeleteRange of the key (other time range) stored nothing although it returned without error: %s:%s", k, keyNames[k], lostNote, b.String())
+				} else {
+					r.Violate("C09:not-linearizable", sigOf(h), "the history of key%d (%q) has no linearization against {snapshot map, hot map, hot wins}:%s", k, keyNames[k], b.String())
+				}
 			}
 		}
 	}
@@ -1264,6 +1490,37 @@ func exec(r *hx.Run, prog []json.RawMessage) {
 	r.Add("writes", w.nwrites)
 	r.Add("writes_rejected_limit", w.limitRejected)
 	r.NonTrivial = len(ops) >= 4 && w.accepted > 0 && r.Sim != nil && r.Sim.Stats.Switches > 0
+}
+
+// lostWriteExplains: is the history linearizable once some of the writes that overlapped a delete are dropped?
+func lostWriteExplains(h []porcupine.Operation) bool {
+	var raced []int
+	for i, o := range h {
+		if r, _ := o.Metadata.(bool); r && o.Input.(linIn).kind == 'w' {
+			raced = append(raced, i)
+		}
+	}
+	if len(raced) == 0 || len(raced) > 5 {
+		return false
+	}
+	for mask := 1; mask < 1<<len(raced); mask++ {
+		drop := map[int]bool{}
+		for j, i := range raced {
+			if mask&(1<<j) != 0 {
+				drop[i] = true
+			}
+		}
+		var sub []porcupine.Operation
+		for i, o := range h {
+			if !drop[i] {
+				sub = append(sub, o)
+			}
+		}
+		if porcupine.CheckOperationsTimeout(truncModel, sub, 20*time.Second) == porcupine.Ok {
+			return true
+		}
+	}
+	return false
 }
 
 // sigOf names the kinds of operations in a non-linearizable history (stable signature for known findings).
